@@ -43,7 +43,7 @@ tvars == <<scen, state, l, ob, ms, viol, out, cnt>>
 
 TracePlans == {<<-1>>}      \* (Plans is not used here: the plan entry of each execution comes with its begin event)
 Dummy == [pages |-> <<0>>, q |-> 0, kind |-> "Scan", fail |-> 0, mode |-> "auto", start |-> 0, plan |-> <<-1>>]
-EmptyObs == [reqs |-> <<>>, tmpls |-> <<>>, rows |-> <<>>, ended |-> "no", err |-> 0, exposed |-> 0, qtok |-> -2]
+EmptyObs == [reqs |-> <<>>, tmpls |-> <<>>, rows |-> <<>>, ended |-> "no", err |-> 0, exposed |-> 0, qtok |-> -2, changed |-> 0]
 
 TInit == /\ l = 1 /\ scen = Dummy /\ state = InitState(Dummy) /\ ob = EmptyObs /\ ms = {}
          /\ viol = {} /\ out = <<>> /\ cnt = [traces |-> 0, conforming |-> 0, steps |-> 0]
@@ -59,7 +59,7 @@ ObsAfter(o, e) ==
     [] e.ev = "row" -> [o EXCEPT !.rows = Append(@, <<e.page, e.idx>>)]
     [] e.ev = "end" -> [o EXCEPT !.ended = CASE e.normal = 1 -> "normal" [] e.normal = 0 -> "error"
                                               [] e.normal = 3 -> "panic" [] OTHER -> "no",   \* 2: stopped by the harness (runaway)
-                                 !.err = e.errpage, !.qtok = e.qtok,
+                                 !.err = e.errpage, !.qtok = e.qtok, !.changed = e.changed,
                                  !.exposed = e.exposed]
     [] OTHER -> o
 
@@ -104,6 +104,8 @@ AlteredKind(o) ==
 \* the node decodes every request field by field in the order of the protocol specification; a request it cannot
 \* decode that way (or whose paging state is not one it issued) is logged with token -1
 Refine(o, k) == IF k = "request-altered" THEN AlteredKind(o)
+                ELSE IF k = "request-state-wrong" /\ \E j \in 1 .. Len(o.reqs) : o.reqs[j] = -2
+                     THEN "request-carries-state-of-another-iteration"   \* (concurrent iterations of one statement)
                 ELSE IF k = "request-state-wrong" /\ \E j \in 1 .. Len(o.reqs) : o.reqs[j] = -1
                      THEN "request-paging-state-not-decodable"
                 ELSE k
